@@ -182,9 +182,13 @@ pub proof fn lemma_emit_down(l0: Seq<Range>, cur: Seq<Range>, ms0: Seq<Migration
         metas_upto(ms0, ci, pi), n <= ci, 0 <= pi < 2,
         forall|p: int| 0 <= p < pi ==> taken_once((#[trigger] ss0[p])->Some_0.range_list.0@, ms0, ci, p),
         forall|i: int, p: int| n <= i < ci && 0 <= p < 2 ==> taken_once((#[trigger] cs0[i].stable_slots[p])->Some_0.range_list.0@, ms0, i, p),
+        forall|p: int| 0 <= p < pi ==> all_moved((#[trigger] ss0[p])->Some_0.range_list.0@, ms0, ci, p),
+        forall|i: int, p: int| n <= i < ci && 0 <= p < 2 ==> all_moved((#[trigger] cs0[i].stable_slots[p])->Some_0.range_list.0@, ms0, i, p),
     ensures split_down_ok(l0, cur, ms0.push(e), Seq::<Range>::empty(), ci, pi, bottom(cur)), metas_upto(ms0.push(e), ci, pi),
         forall|p: int| 0 <= p < pi ==> taken_once((#[trigger] ss0[p])->Some_0.range_list.0@, ms0.push(e), ci, p),
         forall|i: int, p: int| n <= i < ci && 0 <= p < 2 ==> taken_once((#[trigger] cs0[i].stable_slots[p])->Some_0.range_list.0@, ms0.push(e), i, p),
+        forall|p: int| 0 <= p < pi ==> all_moved((#[trigger] ss0[p])->Some_0.range_list.0@, ms0.push(e), ci, p),
+        forall|i: int, p: int| n <= i < ci && 0 <= p < 2 ==> all_moved((#[trigger] cs0[i].stable_slots[p])->Some_0.range_list.0@, ms0.push(e), i, p),
 {
     let ms1 = ms0.push(e);
     lemma_split_down_emit(l0, cur, ms0, cds, e, ci, pi, lo_cds);
@@ -194,5 +198,91 @@ pub proof fn lemma_emit_down(l0: Seq<Range>, cur: Seq<Range>, ms0: Seq<Migration
     assert forall|i: int, p: int| n <= i < ci && 0 <= p < 2 implies taken_once((#[trigger] cs0[i].stable_slots[p])->Some_0.range_list.0@, ms1, i, p) by {
         lemma_taken_once_push_other(cs0[i].stable_slots[p]->Some_0.range_list.0@, ms0, e, i, p);
     }
+    assert forall|p: int| 0 <= p < pi implies all_moved((#[trigger] ss0[p])->Some_0.range_list.0@, ms1, ci, p) by { lemma_all_moved_push(ss0[p]->Some_0.range_list.0@, ms0, e, ci, p); }
+    assert forall|i: int, p: int| n <= i < ci && 0 <= p < 2 implies all_moved((#[trigger] cs0[i].stable_slots[p])->Some_0.range_list.0@, ms1, i, p) by { lemma_all_moved_push(cs0[i].stable_slots[p]->Some_0.range_list.0@, ms0, e, i, p); }
     assert forall|j: int| 0 <= j < ms1.len() implies half_le((#[trigger] ms1[j]).meta.src_chunk_index as int, ms1[j].meta.src_chunk_part as int, ci, pi) by { if j < ms0.len() { assert(ms1[j] == ms0[j]); } }
+}
+
+// ---- scale-in: nothing is lost (the global count) ----
+pub open spec fn half_slots(cs: Seq<ChunkStore>, h: int) -> int { slots_num(half_of(cs, h)->Some_0.range_list.0@) }
+// what the kept masters from..2n-1 still lack
+pub open spec fn lack(cs: Seq<ChunkStore>, n: int, avg: int, rem: int, from: int) -> int
+    decreases 2 * n - from
+{ if from >= 2 * n { 0 } else { dfin(from, avg, rem) - half_slots(cs, from) + lack(cs, n, avg, rem, from + 1) } }
+// what the halves h.. (in processing order) hold
+pub open spec fn held_from(cs: Seq<ChunkStore>, h: int) -> int
+    decreases 2 * cs.len() - h
+{ if h >= 2 * cs.len() { 0 } else { half_slots(cs, h) + held_from(cs, h + 1) } }
+// every slot the half owned is carried by a migration out of it
+#[verifier::opaque]
+pub open spec fn all_moved(o: Seq<Range>, ms: Seq<MigrationSlots>, i: int, p: int) -> bool {
+    forall|s: int| #![trigger covers(o, s)] covers(o, s) ==> pieces_cover(ms, i, p, s)
+}
+pub proof fn lemma_all_moved_push(o: Seq<Range>, ms: Seq<MigrationSlots>, e: MigrationSlots, i: int, p: int)
+    requires all_moved(o, ms, i, p) ensures all_moved(o, ms.push(e), i, p)
+{
+    reveal(all_moved);
+    assert forall|s: int| #![trigger covers(o, s)] covers(o, s) implies pieces_cover(ms.push(e), i, p, s) by { lemma_pieces_push(ms, e, i, p, s); }
+}
+pub proof fn lemma_no_slots_is_empty(v: Seq<Range>)
+    requires wf(v), slots_num(v) == 0
+    ensures v.len() == 0
+    decreases v.len()
+{
+    if v.len() > 0 {
+        lemma_slots_num_first(v); lemma_wf_tail_only(v); lemma_slots_num_nonneg(v.subrange(1, v.len() as int));
+        assert(rlen(v[0]) >= 1);
+    }
+}
+pub proof fn lemma_wf_tail_only(v: Seq<Range>)
+    requires wf(v), v.len() > 0
+    ensures wf(v.subrange(1, v.len() as int))
+{
+    let t = v.subrange(1, v.len() as int);
+    assert forall|i: int| 0 <= i < t.len() implies (#[trigger] t[i]).0 <= t[i].1 by { assert(t[i] == v[i + 1]); }
+    assert forall|i: int| 0 <= i < t.len() - 1 implies (#[trigger] t[i]).1 + 1 < t[i + 1].0 by { assert(t[i] == v[i + 1]); assert(t[i + 1] == v[i + 2]); }
+}
+pub proof fn lemma_split_down_all_moved(l0: Seq<Range>, cur: Seq<Range>, ms: Seq<MigrationSlots>, i: int, p: int, lo_cds: int)
+    requires split_down_ok(l0, cur, ms, Seq::<Range>::empty(), i, p, lo_cds), cur.len() == 0
+    ensures all_moved(l0, ms, i, p)
+{
+    reveal(split_down_ok); reveal(all_moved);
+    let c0 = Seq::<Range>::empty();
+    assert forall|s: int| #![trigger covers(l0, s)] covers(l0, s) implies pieces_cover(ms, i, p, s) by {
+        assert(!covers(cur, s)); assert(!covers(c0, s)); assert(given(ms, c0, i, p, s));
+    }
+}
+
+pub proof fn lemma_held_nonneg(cs: Seq<ChunkStore>, h: int)
+    requires all_some_ok(cs), 0 <= h
+    ensures held_from(cs, h) >= 0
+    decreases 2 * cs.len() - h
+{
+    if h < 2 * cs.len() {
+        lemma_held_nonneg(cs, h + 1);
+        assert(cs[h / 2].stable_slots[h % 2] matches Some(sr) && rl_ok(sr.range_list));
+        lemma_slots_num_nonneg(half_of(cs, h)->Some_0.range_list.0@);
+    }
+}
+// where the count precondition of the scale-in cutter comes from: all 16384 slots are owned by the stable halves and the final shares add up to 16384
+pub proof fn lemma_lack_closed_form(cs: Seq<ChunkStore>, n: int, avg: int, rem: int, from: int)
+    requires 0 <= from <= 2 * n, 2 * n <= 2 * cs.len(), 0 <= rem <= 2 * n
+    ensures lack(cs, n, avg, rem, from) == (2 * n - from) * avg + (if rem > from { rem - from } else { 0 }) - (held_from(cs, from) - held_from(cs, 2 * n))
+    decreases 2 * n - from
+{
+    if from < 2 * n {
+        lemma_lack_closed_form(cs, n, avg, rem, from + 1);
+        assert((2 * n - from) * avg == (2 * n - (from + 1)) * avg + avg) by (nonlinear_arith);
+        assert(held_from(cs, from) == half_slots(cs, from) + held_from(cs, from + 1));
+    } else {
+        assert((2 * n - from) * avg == 0) by (nonlinear_arith) requires 2 * n - from == 0;
+    }
+}
+pub proof fn lemma_balanced_gives_count(cs: Seq<ChunkStore>, n: int, avg: int, rem: int)
+    requires 1 <= n <= cs.len(), avg == 16384int / (2 * n), rem == 16384int - avg * (2 * n), held_from(cs, 0) == 16384
+    ensures lack(cs, n, avg, rem, 0) == held_from(cs, 2 * n)
+{
+    assert(0 <= rem < 2 * n) by (nonlinear_arith) requires avg == 16384int / (2 * n), rem == 16384int - avg * (2 * n), 1 <= n;
+    lemma_lack_closed_form(cs, n, avg, rem, 0);
+    assert((2 * n - 0) * avg == avg * (2 * n)) by (nonlinear_arith);
 }
